@@ -10,8 +10,8 @@
    ("one gzip stream holding the writes ws"); theorems quantify over every codec [gz]/[gunzip]
    with gunzip (gz ws) = Some (concat ws), the harness decodes with Go's compress/gzip.
 
-   Everything that is a table in the Go source (skip list, default extensions, sibling
-   priority) is a Section variable here; the judge instantiates it with the lists regenerated
+   Everything that is a table in the Go source (default extensions, sibling priority) is a
+   Section variable / parameter here; the judge instantiates it with the lists regenerated
    from the Go AST (Gen_C18.v), the theorems hold for every list. *)
 Require Import V.Lib V.GoPath V.Gen_C18.
 Require V.C18_LibPack.   (* not imported: only so that it is built with the model; case files import it *)
@@ -19,8 +19,10 @@ Open Scope N_scope.
 Local Open Scope string_scope.
 
 (* ---------- small string helpers ---------- *)
-Fixpoint contains (s sub : bytes) : bool :=            (* strings.Contains *)
-  has_prefix s sub || match s with [] => false | _ :: r => contains r sub end.
+(* strings.Trim(s, " \t") *)
+Definition is_ows (c : N) : bool := (c =? 32) || (c =? 9).
+Fixpoint ltrim (s : bytes) : bytes := match s with c :: r => if is_ows c then ltrim r else s | [] => [] end.
+Definition trim (s : bytes) : bytes := rev (ltrim (rev (ltrim s))).
 
 (* path.Ext: suffix starting at the last '.' of the last '/'-separated element *)
 Fixpoint ext_rev (r acc : bytes) : bytes :=
@@ -79,6 +81,7 @@ Definition K_ETAG : bytes := bs "Etag".
 Definition K_CT : bytes := bs "Content-Type".
 Definition K_XCTO : bytes := bs "X-Content-Type-Options".
 Definition GZIP : bytes := bs "gzip".
+Definition IDENTITY : bytes := bs "identity".
 Definition V_AE : bytes := bs "Accept-Encoding".
 Definition WEAK : bytes := bs "W/".
 Definition STAR : bytes := bs "*".
@@ -103,15 +106,6 @@ Definition is_hdr (o : op) : bool := match o with OSet _ _ | OAdd _ _ | ODel _ =
 Definition is_body (o : op) : bool := match o with OWrite _ | OFlush => true | _ => false end.
 Definition writes (s : list op) : list bytes :=
   flat_map (fun o => match o with OWrite b => [b] | _ => [] end) s.
-
-(* a handler that sets its headers first, then calls WriteHeader at most once (before any
-   Write/Flush), then only writes and flushes *)
-Fixpoint wb (s : list op) : bool :=
-  match s with
-  | [] => true
-  | o :: r => if is_hdr o then wb r
-              else match o with OWriteHeader _ | OWrite _ => forallb is_body r | _ => false end
-  end.
 
 (* ---------- net/http's response writer, as far as it matters here ---------- *)
 Inductive seg := SP (b : bytes) | SG (ws : list bytes).
@@ -158,13 +152,18 @@ Definition wire (head : bool) (u : uw) : bytes :=
 End Codec.
 
 (* ---------- vocabulary of the theorems ---------- *)
+(* Content-Encoding values that name no coding ("" and "identity"), and the codings a header names *)
+Definition is_identity (v : bytes) : bool := beq v [] || beq v IDENTITY.
+Definition no_coding (vals : list bytes) : bool := forallb is_identity vals.
+Definition codings (vals : list bytes) : list bytes := filter (fun v => negb (is_identity v)) vals.
+
 Section Client.
 Variable gz : list bytes -> bytes.
 Variable gunzip : bytes -> option bytes.
 (* what a client honouring Content-Encoding obtains (None: it cannot decode the response) *)
 Definition client_body (head : bool) (u : uw) : option bytes :=
   if bodyless head (r_status u) then Some []
-  else match r_ce u with
+  else match codings (r_ce u) with
        | [] => Some (wire gz head u)
        | [c] => if beq c GZIP then gunzip (wire gz head u) else None
        | _ => None
@@ -175,7 +174,7 @@ Definition client_body (head : bool) (u : uw) : option bytes :=
 Definition transparent (head : bool) (out inn : uw) : Prop :=
   r_status out = r_status inn /\
   ((r_ce out = r_ce inn /\ wire gz head out = wire gz head inn) \/
-   (r_ce inn = [] /\ r_ce out = [GZIP] /\
+   (no_coding (r_ce inn) = true /\ r_ce out = [GZIP] /\
     (bodyless head (r_status out) = true \/ gunzip (wire gz head out) = Some (wire gz head inn)))).
 (* Content-Length, when the handler chain fixes it, is the length of what is sent *)
 Definition cl_correct (head : bool) (u : uw) : Prop :=
@@ -188,17 +187,19 @@ Definition weak_of (e : bytes) : bytes :=
 Record gcfg := { c_exts : list bytes; c_not : list bytes; c_min : Z (* 0 = no min_length *) }.
 
 Section Tables.
-Variable sl : list bytes.            (* SkipCompressedFilter's list *)
 Variable dexts : list bytes.         (* defaultExtensions *)
 
-Definition skip_ok (ce : bytes) : bool := negb (existsb (beq ce) sl).
+(* SkipCompressedFilter.ShouldCompress: false as soon as one Content-Encoding value is neither
+   "" nor "identity" *)
+Definition skip_ok (ces : list bytes) : bool :=
+  forallb (fun e => negb (negb (beq e []) && negb (beq e IDENTITY))) ces.
 Definition length_ok (min : Z) (cl : bytes) : bool :=
   match parse_int cl with
   | None => false
   | Some n => negb (n =? 0)%Z && negb (min =? 0)%Z && (min <=? n)%Z
   end.
 Definition resp_ok (c : gcfg) (h : headers) : bool :=
-  skip_ok (hget h K_CE) && (if (c_min c =? 0)%Z then true else length_ok (c_min c) (hget h K_CL)).
+  skip_ok (hvals h K_CE) && (if (c_min c =? 0)%Z then true else length_ok (c_min c) (hget h K_CL)).
 
 Definition req_ok (cs : bool) (path : bytes) (c : gcfg) : bool :=
   negb (existsb (path_matches cs path) (c_not c)) &&
@@ -225,6 +226,12 @@ Definition gz_write_header (code : Z) (g : gst) : gst :=
      g_gzw := true; g_active := g_active g; g_ws := g_ws g |}.
 
 Definition rf_write_header (c : gcfg) (code : Z) (g : gst) : gst :=
+  if g_rfw g then
+    (* a repeated call: the decision stands, the call is passed on *)
+    if g_should g then gz_write_header code g
+    else {| g_u := uw_commit code (g_u g); g_rfw := g_rfw g; g_should := g_should g; g_gzw := g_gzw g;
+            g_active := g_active g; g_ws := g_ws g |}
+  else
   if resp_ok c (u_hdr (g_u g)) then
     let g1 := gz_write_header code
                 {| g_u := g_u g; g_rfw := g_rfw g; g_should := g_should g; g_gzw := g_gzw g;
@@ -248,11 +255,16 @@ Definition g_with_u (f : uw -> uw) (g : gst) : gst :=
   {| g_u := f (g_u g); g_rfw := g_rfw g; g_should := g_should g; g_gzw := g_gzw g;
      g_active := g_active g; g_ws := g_ws g |}.
 
+(* ResponseFilterWriter.Flush: WriteHeader(200) first if the header is not written yet, then the
+   wrapped writer's Flush *)
+Definition rf_flush (c : gcfg) (g : gst) : gst :=
+  g_with_u (uw_commit 200) (if g_rfw g then g else rf_write_header c 200 g).
+
 Definition gstep (c : gcfg) (g : gst) (o : op) : gst :=
   match o with
   | OWriteHeader code => rf_write_header c code g
   | OWrite b => rf_write c b g
-  | OFlush => g_with_u (uw_commit 200) g      (* Flush is inherited from the wrapped writer *)
+  | OFlush => rf_flush c g
   | _ => g_with_u (uw_sethdr (hdr_fun o)) g
   end.
 Definition g0 : gst := {| g_u := u0; g_rfw := false; g_should := false; g_gzw := false; g_active := false; g_ws := [] |}.
@@ -261,9 +273,25 @@ Definition g_finish (g : gst) : uw :=
   if g_active g then uw_write (SG (rev (g_ws g))) (g_u g) else g_u g.
 Definition run_gz (c : gcfg) (s : list op) : uw := g_finish (fold_left (gstep c) s g0).
 
+(* isZeroQValue: "0", or "0." followed by zeros only *)
+Definition zero_qvalue (q : bytes) : bool :=
+  beq q (bs "0") || (has_prefix q (bs "0.") && forallb (N.eqb 48) (skipn 2 q)).
+(* acceptsGzip: some element of the comma separated list is named gzip or x-gzip (after trimming
+   blanks, case-sensitively) and none of its ;-parameters is q= / Q= with a zero value *)
+Definition q_refuses (param : bytes) : bool :=
+  match trim param with
+  | c1 :: c2 :: v => ((c1 =? 113) || (c1 =? 81)) && (c2 =? 61) && zero_qvalue (trim v)
+  | _ => false
+  end.
+Definition coding_offers_gzip (coding : bytes) : bool :=
+  let params := split 59 coding in
+  let name := trim (hd [] params) in
+  (beq name GZIP || beq name (bs "x-gzip")) && negb (existsb q_refuses (tl params)).
+Definition accepts_gzip (ae : bytes) : bool := existsb coding_offers_gzip (split 44 ae).
+
 (* Gzip.ServeHTTP *)
 Definition gzip_serve (cs : bool) (cfgs : list gcfg) (path ae : bytes) (s : list op) : uw :=
-  if negb (contains ae GZIP) then run_plain s
+  if negb (accepts_gzip ae) then run_plain s
   else match find (req_ok cs path) cfgs with
        | None => run_plain s
        | Some c => run_gz c s
@@ -305,17 +333,13 @@ Definition static_script (prio : list (bytes * bytes)) (head : bool) (ae : bytes
   fst (static_hdrs prio ae data sibs) ++
   OWriteHeader 200 :: (if head then [] else [OWrite (snd (static_hdrs prio ae data sibs))]).
 
-(* the tables as they were when the property was written (for the refutation witnesses) *)
-Definition skip_snapshot : list bytes := [bs "gzip"; bs "compress"; bs "deflate"; bs "br"].
+(* the table as it was when the property was written (for the examples) *)
 Definition priority_snapshot : list (bytes * bytes) :=
   [(bs "zstd", bs ".zst"); (bs "br", bs ".br"); (bs "gzip", bs ".gz")].
 
 (* ---------- executable spec helpers (independent of the model functions above) ---------- *)
 (* RFC 7231 5.3.4 reading of Accept-Encoding: comma list, coding name before ';',
    case-insensitive, q=0 means "not acceptable", "*" covers codings not listed *)
-Definition is_ows (c : N) : bool := (c =? 32) || (c =? 9).
-Fixpoint ltrim (s : bytes) : bytes := match s with c :: r => if is_ows c then ltrim r else s | [] => [] end.
-Definition trim (s : bytes) : bytes := rev (ltrim (rev (ltrim s))).
 Definition is_zero_q (v : bytes) : bool :=
   beq v (bs "0") || (has_prefix v (bs "0.") && forallb (N.eqb 48) (skipn 2 v)).
 Definition qzero (params : list bytes) : bool :=
@@ -358,12 +382,8 @@ Definition agree_obs (head : bool) (u : uw) (o : obs) : bool :=
      match all_plain (r_segs u) with
      | Some b => beq b (o_body o)
      | None => match r_segs u with
-               | [SG ws] => match r_cl u with
-                            | [] => obeq (o_gunz o) (Some (concat ws))
-                            | _ => true   (* compressed bytes under a committed identity Content-Length
-                                             (Flush before the header): net/http truncates, not modelled *)
-                            end
-               | _ => true     (* plain and compressed bytes interleaved: order on the wire not modelled *)
+               | [SG ws] => obeq (o_gunz o) (Some (concat ws))
+               | _ => false    (* plain and compressed bytes are never mixed (C18_one_representation) *)
                end
      end).
 (* ETag: values are mtime-derived for static files, so only the relation between the two runs
@@ -380,6 +400,9 @@ Definition cl_ok (o : obs) : bool :=
   | [v] => match parse_int v with Some n => (n =? Z.of_nat (length (o_body o)))%Z | None => false end
   | _ => false
   end.
+(* the inner response names no coding: no Content-Encoding, or only empty / "identity" values *)
+Definition ce_none (vals : list bytes) : bool :=
+  forallb (fun v => beq v [] || beq v (bs "identity")) vals.
 Definition spec_common (head : bool) (ae : bytes) (G P : obs) : bool :=
   (o_status G =? o_status P)%Z &&
   (o_err P || negb (o_err G)) &&
@@ -388,7 +411,7 @@ Definition spec_common (head : bool) (ae : bytes) (G P : obs) : bool :=
      (* the client decodes to the same content *)
      o_vok G && o_vok P && lbeq (o_vcod G) (o_vcod P) && beq (o_view G) (o_view P) &&
      (* Content-Encoding names exactly what was applied; encoded responses are left alone *)
-     (same_repr G P || (lbeq (o_ce P) [] && lbeq (o_ce G) [GZIP] && obeq (o_gunz G) (Some (o_body P)))) &&
+     (same_repr G P || (ce_none (o_ce P) && lbeq (o_ce G) [GZIP] && obeq (o_gunz G) (Some (o_body P)))) &&
      (* Content-Length absent or correct *)
      cl_ok G) &&
   (* no gzip offered: the response is the identity one *)
@@ -417,7 +440,7 @@ Definition judge (c : case) : N :=
   match c with
   | CScript cs cfgs head path ae script ret errbody G P =>
       let s := with_error_page script ret errbody in
-      let mg := gzip_serve gen_c18_skip gen_c18_default_exts cs cfgs path ae s in
+      let mg := gzip_serve gen_c18_default_exts cs cfgs path ae s in
       let mp := run_plain s in
       verdict (agree_obs head mg G && agree_obs head mp P && agree_etag mg mp G P)
               (spec_common head ae G P)
@@ -426,7 +449,7 @@ Definition judge (c : case) : N :=
                | Some d => static_script gen_c18_static_priority head ae d sibs
                | None => with_error_page [] 404 errbody
                end in
-      let mg := gzip_serve gen_c18_skip gen_c18_default_exts cs cfgs path ae s in
+      let mg := gzip_serve gen_c18_default_exts cs cfgs path ae s in
       let mp := run_plain s in
       verdict (agree_obs head mg G && agree_obs head mp P && agree_etag mg mp G P)
               (spec_common head ae G P && spec_static head ae data G)
